@@ -369,6 +369,32 @@ def r5(ctx, prog):
             want = {(ord('0'), ord('9')), (ord('A'), ord('F')), (ord('a'), ord('f'))}
             ok = set(ranges) == want and len(thr) == 1 and not f.cfg.exists_path(f.cfg.entry_point(), 'exit', avoid=q.pts(f, rets) + q.pts(f, thr))
             ctx.ob('C19.R5', '%s@%s|digit-ranges' % (f.name, f.file.split('/')[-1]), ok, 'returns only inside 0-9/A-F/a-f range tests (%s), otherwise throws' % sorted(ranges), where=f.loc(f.body))
+            # the converter folded over every byte value: the returned expression of the first branch whose guard holds must be the digit's value,
+            # and no branch may hold for a byte that is not a hex digit
+            par = f.params[0]['n'] if f.params else None
+            wrong = []
+            for ch in range(0, 256):
+                got = 'throw'
+                for r in rets:
+                    gs = [(c, br) for c, br in q.lexical_guards(f, r['i'])]
+                    holds = True
+                    for c, br in gs:
+                        v = q.eval_expr(f, c, lambda sx, ch=ch: ch if (sx['k'] == 'DeclRefExpr' and sx.get('n') == par) else None)
+                        if v is None:
+                            holds = None
+                            break
+                        if bool(v) != (br == 'then'):
+                            holds = False
+                            break
+                    if holds and r.get('val') is not None:
+                        got = q.eval_expr(f, r['val'], lambda sx, ch=ch: ch if (sx['k'] == 'DeclRefExpr' and sx.get('n') == par) else None, signed=True)
+                        break
+                want = int(chr(ch), 16) if chr(ch) in '0123456789abcdefABCDEF' else 'throw'
+                if got != want:
+                    wrong.append((ch, got, want))
+            ctx.ob('C19.R5', '%s@%s|all-bytes' % (f.name, f.file.split('/')[-1]), not wrong, 'folded over all 256 byte values: 22 hex digits give their value, everything else throws' if not wrong else
+                   'for byte 0x%02x (%r) the converter gives %s, the hex value is %s: a valid escape is refused or a non-digit accepted' % (wrong[0][0], chr(wrong[0][0]), wrong[0][1], wrong[0][2]),
+                   where=f.loc(f.body))
     n = 0
     for f in prog.funcs.values():
         if not f.file.endswith('util/base64.cpp') or f.short != 'Decode':
